@@ -909,6 +909,20 @@ class Walker:
         red = self._reduction(st, it)
         if red is not None:
             return False
+        # `for x in xs: if p(x): raise E` (E does not mention x) is `if any(p(x) for x in xs): raise E`
+        if (isinstance(st, ast.For) and not st.orelse and len(st.body) == 1 and isinstance(st.body[0], ast.If) and not st.body[0].orelse
+                and len(st.body[0].body) == 1 and isinstance(st.body[0].body[0], ast.Raise)):
+            tnames = {n.id for n in ast.walk(st.target) if isinstance(n, ast.Name)}
+            rs = st.body[0].body[0]
+            if not any(isinstance(n, ast.Name) and n.id in tnames for n in ast.walk(rs)) and not any(isinstance(n, (ast.Await, ast.NamedExpr)) for n in ast.walk(st.body[0].test)):
+                gen = ast.GeneratorExp(elt=st.body[0].test, generators=[ast.comprehension(target=st.target, iter=st.iter, ifs=[], is_async=0)])
+                test = ast.Call(func=ast.Name(id="any", ctx=ast.Load()), args=[gen], keywords=[])
+                iff = ast.If(test=test, body=[rs], orelse=[])
+                for n in (gen, test, test.func, iff):
+                    ast.copy_location(n, st)
+                ast.copy_location(test, st.body[0].test)
+                ast.copy_location(gen, st.body[0].test)
+                return self.s_If(iff)
         self.emit("test", ("iter", it), st.iter)
         assigned = self._loop_prologue(st.body, st.orelse)
         saved_g, saved_i = self.guards, self.iters
@@ -1312,7 +1326,7 @@ def summarise(prog: Program, fi: FuncInfo) -> Summary:
         w.returns.append(w.emit("return", w.expr(fi.node.body), fi.node))
     else:
         w.block(fi.node.body)
-    events = get_as_index(alias_fields(fuse_events(w.events)))
+    events = get_as_index(alias_fields(stored_takes(fuse_events(w.events))))
     if fi.cls is not None and fi.params and fi.name != "__init__" and not isinstance(fi.node, ast.Lambda):
         df = derived_fields(prog, fi.cls)
         if df:
@@ -1498,6 +1512,57 @@ def get_as_index(events: List[Event]) -> List[Event]:
             out.append(Event(e.idx, e.kind, T.replace(e.term, m), replace_stripped(e.raw, m), e.node, e.stmt, e.guards, T.replace(e.iters, m), e.tries, e.awaited, e.extra))
         else:
             out.append(e)
+    return out if changed else events
+
+
+def stored_takes(events: List[Event]) -> List[Event]:
+    """`x = take(); obj.f = x` (the value of an impure call named once and stored into a field right away) is
+    `obj.f = take()`: until the field is stored again, the local is bound again or the function suspends, the local
+    and the field denote the same object, and the field is the canonical name."""
+    bind_idx: Dict[Term, List[int]] = {}
+    for i, e in enumerate(events):
+        if e.kind == "bind":
+            bind_idx.setdefault(e.term[1], []).append(i)
+    out = list(events)
+    changed = False
+    for v, idxs in bind_idx.items():
+        if len(idxs) != 1:
+            continue
+        bi = idxs[0]
+        b = events[bi]
+        if T.strip(b.term[2])[0] != "call" or bi + 1 >= len(events):
+            continue
+        st = events[bi + 1]
+        if st.kind != "store" or st.term[2] != v or st.guards != b.guards or st.iters != b.iters:
+            continue
+        P = st.term[1]
+        root = P
+        while root[0] == "attr":
+            root = root[1]
+        if P[0] != "attr" or root[0] != "var" or root == v:
+            continue
+        stop = len(events)
+        for i in range(bi + 2, len(events)):
+            e = events[i]
+            if (e.kind == "store" and e.term[1] == P) or e.kind == "await" or (e.kind == "bind" and e.term[1] in (v, root)):
+                stop = i
+                break
+        m = {v: P}
+        seen_before = set()
+        for i in range(0, bi + 2):
+            seen_before |= set(events[i].guards)
+        in_scope_guards = set()
+        for i in range(bi + 2, min(stop + 1, len(events))):
+            in_scope_guards |= {g for g in events[i].guards if g not in seen_before}
+        out[bi + 1] = Event(st.idx, st.kind, ("store", P, b.term[2]), ("store", P, b.raw[2]) if len(b.raw) > 2 else st.raw, st.node, st.stmt, st.guards, st.iters, st.tries, st.awaited, st.extra)
+        for i in range(bi + 2, len(events)):
+            e = out[i]
+            gs = tuple(T.replace(g, m) if g in in_scope_guards else g for g in e.guards)
+            if i < stop:
+                out[i] = Event(e.idx, e.kind, T.replace(e.term, m), T.replace(e.raw, m), e.node, e.stmt, gs, T.replace(e.iters, m), e.tries, e.awaited, e.extra)
+            elif gs != e.guards:
+                out[i] = Event(e.idx, e.kind, e.term, e.raw, e.node, e.stmt, gs, e.iters, e.tries, e.awaited, e.extra)
+        changed = True
     return out if changed else events
 
 
@@ -1957,13 +2022,21 @@ def _bind_params(callee: FuncInfo, recv: Optional[Term], args: Tuple[Term, ...],
         mapping[T.var(params[0])] = recv
         params = params[1:]
     a = callee.node.args
-    if a.vararg is not None or a.kwarg is not None:
+    if a.kwarg is not None:
         return None
-    if len(args) > len(params):
+    pos = [x.arg for x in a.posonlyargs + a.args]
+    if recv is not None:
+        pos = pos[1:]
+    kwonly = [x.arg for x in a.kwonlyargs]
+    if a.vararg is not None:
+        # `*rest` is the tuple of the surplus positional arguments
+        mapping[T.var(a.vararg.arg)] = ("tuple", tuple(args[len(pos):]))
+        args = args[:len(pos)]
+    if len(args) > len(pos):
         return None
-    for p, v in zip(params, args):
+    for p, v in zip(pos, args):
         mapping[T.var(p)] = v
-    rest = params[len(args):]
+    rest = pos[len(args):] + kwonly
     kwd = dict(kws)
     # defaults (constants only)
     names = [x.arg for x in a.posonlyargs + a.args]
